@@ -172,3 +172,25 @@ _H1 = {
 for _pid, _extra in _H1.items():
     _ref, _tech, _text, _note = CHECKS[_pid]
     CHECKS[_pid] = (_ref, _tech, _text + _extra, _note)
+
+# review round h2 (on the repaired tree)
+_H2 = {
+    "C02": " Class agreement is judged for EVERY class raised after a FAIL record, also those that end the invocation (step / child re-raising invocation errors: "
+           "known findings); the event handed to the handler must be read from the state after the paginated history was loaded.",
+    "C06": " The same look at the failure state (after stop + join) is required on every path on which the handler ended with an error of its own; a failure may "
+           "not leave the wrapper as the BackgroundThreadError envelope.",
+    "C07": " The suspend verdict must be able to see results that were delivered into the operation map while branches were parked (known finding).",
+    "C08": " The identifier of every record - including the EXECUTION result records - is a function of constants and parameters (wall-clock ids: known findings).",
+    "C09": " A branch state publishes its payload before its terminal status.",
+    "C10": " The operation's retry / wait strategy counts as its user function; terminal cells that answer from the record without an orphan query are reported "
+           "(known finding).",
+    "C12": " Where the overflow of the backoff power is caught, the substitute must follow the product (zero initial delay).",
+    "C15": " Decoder recursion costs no more frames per level than encoder recursion; no coercion before encode (bytearray / memoryview: known finding); the zone of "
+           "an aware datetime is kept or rejected (known finding).",
+    "C16": " The checkpoint limit is compared with a byte count; executors without user code never ask the orphan state in a resumed cell.",
+    "C18": " Conversion of foreign and user exceptions into error records is total (None-valued attributes, failing __str__).",
+    "C20": " The decoder computes the datetime by integer arithmetic too.",
+}
+for _pid, _extra in _H2.items():
+    _ref, _tech, _text, _note = CHECKS[_pid]
+    CHECKS[_pid] = (_ref, _tech, _text + _extra, _note)
